@@ -476,6 +476,8 @@ pub struct Frozen {
     pub item_count: u32,
     pub pattern: String,
     pub stream: Option<u32>,
+    /// payload ids of (up to 300 of) the matched items, for the retained snapshot of restart(false)
+    pub ids: Vec<u32>,
 }
 
 pub struct World {
@@ -558,7 +560,7 @@ impl World {
     }
 
     pub fn problem(&mut self, prop: &str, kind: &str, msg: String) {
-        if self.problems.len() < 12 {
+        if self.problems.iter().filter(|x| x.0 == prop).count() < 8 {
             self.problems.push((prop.to_owned(), kind.to_owned(), msg));
         }
     }
@@ -710,6 +712,7 @@ impl World {
             item_count: snap.item_count(),
             pattern: snap_pattern_string(snap, self.cols),
             stream: self.snap_stream,
+            ids: snap.matches().iter().take(300).filter_map(|m| snap.get_item(m.idx).map(|it| it.data.id)).collect(),
         };
         let old = self.cur;
         // from now on the matcher may let go of the old stream at any time - possibly inside
@@ -800,6 +803,7 @@ impl World {
                 item_count: snap.item_count(),
                 pattern: snap_pattern_string(snap, self.cols),
                 stream: self.snap_stream,
+                ids: Vec::new(),
             }
         };
         let completed_before = self.completed.lock().unwrap().get(&self.cur).copied().unwrap_or(0);
@@ -822,8 +826,9 @@ impl World {
         let item_count = snap.item_count();
         let pat = snap_pattern_string(snap, cols);
         let mut problems: Vec<(String, String, String)> = Vec::new();
+        // (capped per property: problems of one property must not crowd out those of another)
         let mut p = |prop: &str, kind: &str, msg: String| {
-            if problems.len() < 6 {
+            if problems.iter().filter(|x| x.0 == prop).count() < 4 {
                 problems.push((prop.to_owned(), kind.to_owned(), msg))
             }
         };
@@ -1001,6 +1006,16 @@ impl World {
         // ---- C12: retained snapshot / new stream only
         if let Some(f) = &self.frozen {
             let same = matches == f.matches && item_count == f.item_count && pat == f.pattern;
+            if same {
+                // C11: the retained snapshot is a handle that reaches its items: as long as it lists them they are alive
+                if let Some(&id) = f.ids.iter().find(|&&id| self.reg.drops[id as usize].load(Ordering::Relaxed) > 0) {
+                    p(
+                        "C11",
+                        "payload-dropped-while-reachable",
+                        format!("item id {id} of the stream shown by the retained snapshot was destroyed while the snapshot still lists it ({} matches)", matches.len()),
+                    );
+                }
+            }
             if !same {
                 // the snapshot moved on: it must consist solely of items of the current stream
                 if let Some(s) = snap_stream {
